@@ -65,7 +65,9 @@ theorem search_eq_filter (pd : Nat → ℝ) (bd : Box3 ℝ → ℝ) (h : Nat →
         symm
         rw [List.filter_eq_nil_iff]
         intro i hi
-        simp only [decide_eq_true_eq, not_le, limOf]
+        simp only [limOf]
+        intro hle
+        have h0 := of_decide_eq_true hle
         have h1 := hbox i hi
         have h2 := hvar i hi
         linarith
@@ -90,7 +92,9 @@ theorem search_eq_filter (pd : Nat → ℝ) (bd : Box3 ℝ → ℝ) (h : Nat →
         symm
         rw [List.filter_eq_nil_iff]
         intro i hi
-        simp only [decide_eq_true_eq, not_le, limOf]
+        simp only [limOf]
+        intro hle
+        have h0 := of_decide_eq_true hle
         have h1 := hbox i hi
         have h2 := hvar i hi
         linarith
